@@ -11,6 +11,9 @@ cat.lookup   B P probs infer            | op …
 cat.nclookup B P syms probs infer       | op …
 cat.uniform  B P range                  | op …
 cat.fast     kind B P n syms            (kind ∈ dec enc lookup; n weights `1.0`; D13 glue)
+cat.fromtable target B P s:c:p,…        (target ∈ dec enc lookup gdec genc: `from_iterable_entropy_model`
+                                         / `to_generic_*` of a source whose symbol table is this list,
+                                         valid or not)
 cat.valsweep B P n infer vals           (all tables of length n over `vals`, or `all`)
 cat.unisweep B P lo hi                  (all ranges in [lo, hi))
 cat.bsearch  arr q                      (transcription of `slice::binary_search_by`)
@@ -218,6 +221,20 @@ def runOps (B P : Nat) : Mdl → List (List String) → List String → List Str
 def parseBool (s : String) : Option Bool :=
   if s == "1" then some true else if s == "0" then some false else none
 
+def parseTriple (s : String) : Option (Nat × Nat × Nat) :=
+  match s.splitOn ":" with
+  | [a, c, p] => do
+      let a ← parseHex a; let c ← parseHex c; let p ← parseHex p
+      some (a, c, p)
+  | _ => none
+
+/-- `s:c:p,s:c:p,…`; `-` is the empty table -/
+def parseTriples (s : String) : Option (List (Nat × Nat × Nat)) :=
+  if s == "-" then some [] else
+  (s.splitOn ",").foldr (fun t acc => match parseTriple t, acc with
+    | some v, some l => some (v :: l)
+    | _, _ => none) (some [])
+
 /-- constructor segment → `R (Option Mdl)` (`none` = `Err(())`) -/
 def doCtor (seg : List String) : Option (Nat × Nat × R (Option Mdl)) :=
   match seg with
@@ -253,6 +270,19 @@ def doCtor (seg : List String) : Option (Nat × Nat × R (Option Mdl)) :=
       let range ← parseHex range
       let range := narrow U range   -- the harness reads it into a `usize`
       some (B, P, bindR (liftM (Uniform.new B P range)) (fun u => .val (some (.uniform u))))
+  | ["cat.fromtable", target, b, p, tbl] => do
+      let B ← parseHex b; let P ← parseHex p
+      let t ← parseTriples tbl
+      -- only what the types can express (`NonZero` probabilities, values of type `Probability`)
+      if t.any (fun e => e.2.2 == 0 || e.2.2 ≥ 2^B || e.2.1 ≥ 2^B) then none else
+      match target with
+      | "dec" | "gdec" =>
+        some (B, P, bindR (liftM (NcDec.fromTable B P t)) (fun d => .val (some (.ncdec d))))
+      | "enc" | "genc" => some (B, P, .val (some (.ncenc (NcEnc.fromTable t))))
+      | "lookup" =>
+        if !lookupOk B then some (B, P, .unsupported) else
+        some (B, P, bindR (liftM (NcLookup.fromTable B P t)) (fun l => .val (some (.nclookup l))))
+      | _ => none
   | ["cat.fast", kind, b, p, n, syms] => do
       let B ← parseHex b; let P ← parseHex p
       let n ← parseHex n
